@@ -12,6 +12,7 @@ import (
 	"encoding/binary"
 	"errors"
 	"fmt"
+	"os"
 	"runtime"
 	"strings"
 	"sync"
@@ -372,16 +373,15 @@ func nilChanBlocked() string {
 func waitQuiesced(d time.Duration) bool {
 	dl := time.Now().Add(d)
 	for spin := 0; ; spin++ {
-		// fast path: only the child's main goroutine and the case goroutine are left
-		if runtime.NumGoroutine() <= idleGoroutines+1 {
-			return true
-		}
-		if spin < 200 {
+		// cheap test first (only the child's main goroutine and the case goroutine are left), confirmed
+		// by a goroutine dump: the count alone is not proof (runtime goroutines come and go)
+		if runtime.NumGoroutine() <= idleGoroutines+1 || spin >= 200 {
+			if len(repoGoroutines()) == 0 {
+				return true
+			}
+		} else {
 			runtime.Gosched()
 			continue
-		}
-		if len(repoGoroutines()) == 0 {
-			return true
 		}
 		if time.Now().After(dl) {
 			return false
@@ -425,6 +425,14 @@ func execProto(c *Case, res *Result) {
 	r.mu.Unlock()
 	defer func() {
 		r.releaseAll()
+		if os.Getenv("C11_DEBUG_LATE") != "" {
+			time.Sleep(30 * time.Millisecond)
+			r.mu.Lock()
+			if n := len(r.events); n > 0 && r.events[n-1].E != "quiesced" && res.Outcome == "ok" && res.EndedBy != "" {
+				res.Detail += " late-event:" + r.events[n-1].E + " goroutines:" + strings.Join(repoGoroutines(), " || ")
+			}
+			r.mu.Unlock()
+		}
 		r.mu.Lock()
 		r.active = false
 		res.Trace = r.events
